@@ -586,9 +586,15 @@ func main() {
 		fmt.Println("replay: property holds on this case")
 		return
 	}
-	part1(*tier, *bridge, work, "", acc)
+	if *bridge != "" {
+		part1(*tier, *bridge, work, "", acc)
+	} else {
+		acc.NotExhaustive("the per-declaration bridge does not build against this tree (it calls unexported functions of package goose): parts (1) and (3) skipped, parts (2) and (4) run through the real binary")
+	}
 	part2(*tier, *goose, work, acc, "")
-	part3(*tier, *bridge, acc, start)
+	if *bridge != "" {
+		part3(*tier, *bridge, acc, start)
+	}
 	diffexec.CrashCheckLookalikes(*goose, work, acc)
 	os.RemoveAll(work)
 	os.Exit(acc.Done(ev.Finish{
